@@ -3,12 +3,14 @@
     What is modelled
     - the hosting configuration of a NodeHost: the shards it runs, each with the type of its
       state machine (regular / concurrent / on-disk), in start order;
-    - [NodehostAPI.supportCS], the session-kind cache (Go map -> std++ [gmap]), and
-      [supportRegularSession] including the cache-fill loop over [NodeHostInfo.ShardInfoList];
-      the model is the REPAIRED lookup ([if ci.ShardID == shardID { ... }], see
-      corpus/C19/fix-session-kind.diff); the order of [ShardInfoList] is dragonboat's map
+    - [supportRegularSession]: no cache (repair 6156851; before it a per-shard cache that was
+      never invalidated answered from a previous incarnation of a stopped and re-hosted shard,
+      corpus/C19/stale-after-rehost-witnesses.txt): every call scans [NodeHostInfo.ShardInfoList]
+      and takes the last entry naming the shard; the order of [ShardInfoList] is dragonboat's map
       iteration order, so the info list is an argument of the query ([il]) and theorems quantify
       over every permutation of the hosting configuration;
+    - [NodeHost.StopShard] and a later start of the same shard id as a new replica, possibly of
+      another state-machine type ([stop] / [EStop]);
     - [GetSession] (which kind of session is handed out, or an error),
     - [ToPBSession], [ToNodeHostSession], [updatePBSession] as record maps (every field),
     - [grpcError]/[GRPCError] as a total function from the error values the code distinguishes
@@ -61,32 +63,35 @@ Definition start (h : hosting) (s : N) (t : sm_type) : hosting :=
   | None => h ++ [(s, t)]
   end.
 
-(** * The session-kind cache and supportRegularSession *)
+(** [NodeHost.StopShard]: the shard id is no longer hosted (and no longer listed by
+    [GetNodeHostInfo]); it can be started again later, as a new replica of any type. Stopping a
+    shard id that is not running fails ([ErrShardNotFound]) and changes nothing. *)
+Definition stop (h : hosting) (s : N) : hosting :=
+  List.filter (fun ci => negb (fst ci =? s)) h.
 
-Notation cache := (gmap N bool).
+(** * supportRegularSession *)
 
-(** the cache-fill loop:
+(** No cache (since the repair 6156851, corpus/C19/fix-stale-kind.txt): every call reads
+    [GetNodeHostInfo] and takes the LAST entry of [ShardInfoList] that names the shard:
+      v, ok := false, false
       for _, ci := range nhi.ShardInfoList {
-        if ci.ShardID == shardID { api.supportCS[shardID] = ci.StateMachineType != sm.OnDiskStateMachine }
+        if ci.ShardID == shardID { v, ok = ci.StateMachineType != sm.OnDiskStateMachine, true }
       } *)
-Definition fill_step (s : N) (c : cache) (ci : N * sm_type) : cache :=
-  if fst ci =? s then <[s := negb (is_ondisk (snd ci))]> c else c.
-
-Definition fill (s : N) (il : hosting) (c : cache) : cache := fold_left (fill_step s) il c.
+Definition lookup_step (s : N) (acc : option bool) (ci : N * sm_type) : option bool :=
+  if fst ci =? s then Some (negb (is_ondisk (snd ci))) else acc.
 
 (** [supportRegularSession shardID]: [Some v] = (v, nil), [None] = error
     ("unknown state machine type"). [il] is the ShardInfoList of the running NodeHost. *)
-Definition support_regular (c : cache) (il : hosting) (s : N) : option bool * cache :=
-  match c !! s with
-  | Some v => (Some v, c)
-  | None => let c' := fill s il c in (c' !! s, c')
-  end.
+Definition support_regular (il : hosting) (s : N) : option bool :=
+  fold_left (lookup_step s) il None.
 
 (** * One facade object on one NodeHost *)
 
-Record fstate := mkF { hosted : hosting; fcache : cache }.
+(** the facade object itself holds no state that matters for the session kind; what it sees is
+    the hosting configuration of its NodeHost *)
+Record fstate := mkF { hosted : hosting }.
 
-Definition finit : fstate := mkF [] ∅.
+Definition finit : fstate := mkF [].
 
 (** outcome of [GetSession] as far as the session kind is concerned *)
 Inductive qres := QKind (k : skind) | QErr.
@@ -100,20 +105,24 @@ Definition qres_of (r : option bool) : qres :=
 
 (** one [GetSession shard] against info list [il] *)
 Definition query (st : fstate) (il : hosting) (s : N) : qres * fstate :=
-  let '(r, c') := support_regular (fcache st) il s in
-  (qres_of r, mkF (hosted st) c').
+  (qres_of (support_regular il s), st).
 
 Definition start_shard (st : fstate) (s : N) (t : sm_type) : fstate :=
-  mkF (start (hosted st) s t) (fcache st).
+  mkF (start (hosted st) s t).
 
-(** events seen by one facade object: shards are started on its NodeHost, sessions are asked for *)
-Inductive event := EStart (s : N) (t : sm_type) | EQuery (s : N).
+Definition stop_shard (st : fstate) (s : N) : fstate :=
+  mkF (stop (hosted st) s).
+
+(** events seen by one facade object: shards are started / stopped (and possibly started again,
+    as a new replica of any type) on its NodeHost, sessions are asked for *)
+Inductive event := EStart (s : N) (t : sm_type) | EQuery (s : N) | EStop (s : N).
 
 (** deterministic run: the info list is the hosting configuration in start order *)
 Definition step (st : fstate) (e : event) : list qres * fstate :=
   match e with
   | EStart s t => ([], start_shard st s t)
   | EQuery s => let '(r, st') := query st (hosted st) s in ([r], st')
+  | EStop s => ([], stop_shard st s)
   end.
 
 Fixpoint run_from (st : fstate) (evs : list event) : list qres * fstate :=
@@ -126,7 +135,8 @@ Fixpoint run_from (st : fstate) (evs : list event) : list qres * fstate :=
 
 Definition run (evs : list event) : list qres := fst (run_from finit evs).
 
-(** the specification of the same run: no cache, the answer is read off the hosting configuration *)
+(** the specification of the same run: the answer is read off the hosting configuration as it
+    is at the moment of the call *)
 Definition spec_answer (h : hosting) (s : N) : qres :=
   match hosted_type h s with
   | Some t => QKind (kind_of_type t)
@@ -138,13 +148,16 @@ Fixpoint spec_run (h : hosting) (evs : list event) : list qres :=
   | [] => []
   | EStart s t :: evs' => spec_run (start h s t) evs'
   | EQuery s :: evs' => spec_answer h s :: spec_run h evs'
+  | EStop s :: evs' => spec_run (stop h s) evs'
   end.
 
-(** every state a facade object can be in: any interleaving of starts and queries, every query
-    seeing the hosted shards in an arbitrary order (Go map iteration order inside dragonboat) *)
+(** every state a facade object can be in: any interleaving of starts, stops (and re-starts with
+    any type) and queries, every query seeing the hosted shards in an arbitrary order (Go map
+    iteration order inside dragonboat) *)
 Inductive reachable : fstate -> Prop :=
 | R_init : reachable finit
 | R_start st s t : reachable st -> reachable (start_shard st s t)
+| R_stop st s : reachable st -> reachable (stop_shard st s)
 | R_query st il s : reachable st -> Permutation il (hosted st) -> reachable (snd (query st il s)).
 
 (** * Sessions and their wire form *)
@@ -250,16 +263,14 @@ Section Calls.
       [Unknown]) *)
   Definition facade_get_session (st : fstate) (il : hosting) (w : W) (s : N)
     : fres pb_session * fstate * W :=
-    let '(r, c') := support_regular (fcache st) il s in
-    let st' := mkF (hosted st) c' in
-    match r with
-    | None => (FErr Unknown, st', w)
+    match support_regular il s with
+    | None => (FErr Unknown, st, w)
     | Some true =>
         match local_get_session w s with
-        | (LErr e, w') => (FErr (grpc_code e), st', w')
-        | (LOk cs, w') => (FOk (to_pb cs), st', w')
+        | (LErr e, w') => (FErr (grpc_code e), st, w')
+        | (LOk cs, w') => (FOk (to_pb cs), st, w')
         end
-    | Some false => (FOk (to_pb (local_noop_session s)), st', w)
+    | Some false => (FOk (to_pb (local_noop_session s)), st, w)
     end.
 
   (** [NodehostAPI.CloseSession]: [true] = Completed *)
